@@ -5,6 +5,7 @@ Model of /repo/pkg/headers/transport.go (`parsePorts`, `TransportMode.unmarshal`
 Numbers are `Nat` (the parsers bound them: ports < 2^31, ttl < 2^32, ssrc < 2^32).
 -/
 namespace Rtsp.Hdr
+open Rtsp.Facts
 
 inductive Profile | avp | savp deriving DecidableEq, Repr, Inhabited
 inductive Protocol | udp | tcp deriving DecidableEq, Repr, Inhabited
@@ -30,11 +31,11 @@ deriving DecidableEq, Repr, Inhabited
 def parsePorts (v : Str) : Res (Nat × Nat) :=
   match splitOn '-' v with
   | [a, b] =>
-    match parseUint 31 a, parseUint 31 b with
+    match parseUint Hdr.portBits a, parseUint Hdr.portBits b with
     | some x, some y => .ok (x, y)
     | _, _ => .err .ports
   | [a] =>
-    match parseUint 31 a with
+    match parseUint Hdr.portBits a with
     | some x => .ok (x, x + 1)
     | none => .err .ports
   | _ => .err .ports
@@ -50,7 +51,7 @@ any failure leaves the field untouched (it is not an error). -/
 def parseSsrc (v : Str) : Option Nat :=
   let v := trimLeftSp v
   let v := if v.length % 2 ≠ 0 then '0' :: v else v
-  if v.length ≤ 8 then hexNat v 0 else none
+  if v.length ≤ 2 * Hdr.ssrcMaxBytes then hexNat v 0 else none
 
 /-- one iteration of the `for _, k := range keys` loop; the `Bool` is `profileFound`. -/
 def Transport.step (st : Transport × Bool) (k v : Str) : Res (Transport × Bool) :=
@@ -69,7 +70,7 @@ def Transport.step (st : Transport × Bool) (k v : Str) : Res (Transport × Bool
     | .err e => .err e
     | .unm => .unm
   else if k = cs!"ttl" then
-    match parseUint 32 v with
+    match parseUint Hdr.ttlBits v with
     | some n => .ok ({ h with ttl := some n }, pf)
     | none => .err .number
   else if k = cs!"port" then
@@ -135,10 +136,6 @@ def profileStr (h : Transport) : Str :=
   | .tcp, .avp => cs!"RTP/AVP/TCP"
   | .udp, .savp => cs!"RTP/SAVP"
   | .tcp, .savp => cs!"RTP/SAVP/TCP"
-
-def optField (name : Str) : Option Str → List Str
-  | some v => [name ++ v]
-  | none => []
 
 /-- the list `rets` of `Transport.Marshal` -/
 def Transport.fields (h : Transport) : List Str :=
